@@ -55,8 +55,11 @@ def Cls.has (k : Cls) (c : Char) : Bool :=
   | .lower => isLowerA c
   | .space => n == 32 || (decide (9 ≤ n) && decide (n ≤ 13))
   | .blank => n == 32 || n == 9
-  | .punct => (decide (33 ≤ n) && decide (n ≤ 47)) || (decide (58 ≤ n) && decide (n ≤ 64)) ||
-              (decide (91 ≤ n) && decide (n ≤ 96)) || (decide (123 ≤ n) && decide (n ≤ 126))
+  -- Oniguruma's (Unicode) punctuation: the POSIX class without the nine symbols $ + < = > ^ ` | ~
+  -- (the known finding C12/punct-class-symbols; the specification has the POSIX class)
+  | .punct => ((decide (33 ≤ n) && decide (n ≤ 47)) || (decide (58 ≤ n) && decide (n ≤ 64)) ||
+              (decide (91 ≤ n) && decide (n ≤ 96)) || (decide (123 ≤ n) && decide (n ≤ 126))) &&
+              !(n == 36 || n == 43 || n == 60 || n == 61 || n == 62 || n == 94 || n == 96 || n == 124 || n == 126)
   | .print => decide (32 ≤ n) && decide (n ≤ 126)
   | .graph => decide (33 ≤ n) && decide (n ≤ 126)
   | .cntrl => decide (n ≤ 31) || n == 127
